@@ -326,6 +326,13 @@ def _r8(ctx, pkg):
     params = [a.arg for a in ps.args.args]
     stores = [(f.line, simp(f.value)) for f in Flow(ps, KR, resolver=helpers, func_resolver=funcs).facts if f.kind == "attrstore" and f.target == "rate_string" and f.value is not None]
     if len(params) == 2 and not stores:
+        # the body of the reader extracted into helper procedures of the class: read with the helpers put back
+        try:
+            ps_x = pkg.expanded("KROMEReaction", "_parse_string", keep=("_create_species",))
+            stores = [(f.line, simp(f.value)) for f in Flow(ps_x, KR, resolver=helpers, func_resolver=funcs).facts if f.kind == "attrstore" and f.target == "rate_string" and f.value is not None]
+        except RecursionError:
+            pass
+    if len(params) == 2 and not stores:
         # the columns are handed to reader methods (a table of readers, a generator of (keyword, value) pairs): the store and the
         # split are judged where they are written -- the stored text is the reader's parameter with the reviewed spelling change,
         # and whatever is split at the commas is a parameter as it came (the pairing of columns and readers is not followed)
@@ -963,8 +970,11 @@ def _children_used(cb):
         arg = cb.args.args[1].arg if len(cb.args.args) > 1 else None
         nodes_ = cb.body
         st = [x for x in cb.body if not (isinstance(x, ast.Expr) and isinstance(x.value, ast.Constant))]
-        if len(st) == 2 and isinstance(st[0], ast.Assign) and isinstance(st[0].targets[0], (ast.Tuple, ast.List)) and len(st[0].targets[0].elts) == 1 \
-                and isinstance(st[0].value, ast.Name) and st[0].value.id == arg and isinstance(st[1], ast.Return):
+        # (the one-element unpacking is what guarantees "exactly one child or an error"; what follows -- the return, possibly through a
+        # local -- hands that child on)
+        if len(st) >= 2 and isinstance(st[0], ast.Assign) and len(st[0].targets) == 1 and isinstance(st[0].targets[0], (ast.Tuple, ast.List)) and len(st[0].targets[0].elts) == 1 \
+                and not isinstance(st[0].targets[0].elts[0], ast.Starred) and isinstance(st[0].value, ast.Name) and st[0].value.id == arg and isinstance(st[-1], ast.Return) \
+                and all(isinstance(x, (ast.Assign, ast.AnnAssign, ast.Return)) for x in st[1:]):
             return {0}, "single"
         if len(st) == 1 and isinstance(st[0], ast.Return) and arg and re.fullmatch(r"""['"]{2}\.join\(%s\)""" % arg, ast.unparse(st[0].value).replace(" ", "")):
             return set(), "join"
